@@ -180,6 +180,13 @@ func (c *Config) generateNoncePattern(seed int, unlockAll bool) {
 		}
 	}
 
+	if (c.original.Nonce == nil || c.original.Nonce.MinLen == nil) && c.original.Nonce != nil && c.original.Nonce.MaxLen != nil {
+		// An implicit minLen must not exceed an explicitly configured maxLen.
+		if n.GetMinLen() > n.GetMaxLen() {
+			n.MinLen = proto.Int32(n.GetMaxLen())
+		}
+	}
+
 	if c.original.Nonce == nil || c.original.Nonce.MaxLen == nil {
 		minLen := int(n.GetMinLen())
 		n.MaxLen = proto.Int32(int32(minLen + rng.FixedInt(13-minLen, fmt.Sprintf("%d:nonce.maxLen", seed))))
